@@ -36,6 +36,13 @@ func (p physKV) Put(k string, v []byte) error {
 	return p.b.Put(bg, &physical.Entry{Key: k, Value: append([]byte{}, v...)})
 }
 
+// PutCancelled: the same call with a request context that is already cancelled.
+func (p physKV) PutCancelled(k string, v []byte) error {
+	ctx, cancel := context.WithCancel(bg)
+	cancel()
+	return p.b.Put(ctx, &physical.Entry{Key: k, Value: append([]byte{}, v...)})
+}
+
 func (p physKV) Get(k string) ([]byte, bool, error) {
 	e, err := p.b.Get(bg, k)
 	if err != nil || e == nil {
@@ -67,6 +74,11 @@ func (p logKV) Get(k string) ([]byte, bool, error) {
 		return nil, true, fmt.Errorf("entry key %q differs from requested key %q", e.Key, k)
 	}
 	return e.Value, true, nil
+}
+func (p logKV) PutCancelled(k string, v []byte) error {
+	ctx, cancel := context.WithCancel(bg)
+	cancel()
+	return p.s.Put(ctx, &logical.StorageEntry{Key: k, Value: append([]byte{}, v...)})
 }
 func (p logKV) Delete(k string) error            { return p.s.Delete(bg, k) }
 func (p logKV) List(pf string) ([]string, error) { return p.s.List(bg, pf) }
